@@ -54,11 +54,20 @@ def rich_tree(C, rng):
 UNKNOWN = ["FOO", "INTU.BID", "INTU.AGG", "XYZZY", "A.B", "COUNT", "INDEX", "APPEND", "SORT", "SPEC", "GROOM", "ELEMENTS", "COPY", "TO_ETREE", "STATEMENTS", "TRANSACTIONS",
            # tags no model class is named after (an unknown aggregate must be skipped, not looked up) and tags outside
            # the parser's tag alphabet (hyphen, lower case): vendors use them, the library has always let them pass
-           "FIEXTRAS", "SESSIONFLAGS", "X-FI-REF", "intu.bid", "Vendor_Ext"]
+           "FIEXTRAS", "SESSIONFLAGS", "X-FI-REF", "intu.bid", "Vendor_Ext",
+           # OFX tags may start with a digit, '.' or '_' and may be long
+           "401K.SOURCEINFO", "_EXT", "3RDPARTY", ".HIDDEN", "INTU.ACCOUNTAGGREGATIONPROVIDERNAME", "X" * 64,
+           # words that mean something to Python (keywords, soft keywords, constants) and the two tags the library renames
+           # where they are declared (FROM in MAIL, YIELD in MFINFO/STOCKINFO) - unknown everywhere else
+           "CLASS", "GLOBAL", "IMPORT", "RETURN", "IN", "IS", "OR", "NOT", "IF", "WITH", "PASS", "AS", "FOR", "DEF", "LAMBDA", "NONE", "TRUE",
+           "MATCH", "TYPE", "FROM", "YIELD"]
+RENAMED_WHERE_DECLARED = {"FROM": ("MAIL",), "YIELD": ("MFINFO", "STOCKINFO")}
 
 
 def unknown_child(rng, C):
     u = ET.Element(rng.choice(UNKNOWN))
+    if C.__name__ in RENAMED_WHERE_DECLARED.get(u.tag, ()):
+        u.tag = "FOO"
     r = rng.random()
     if any(ch not in "ABCDEFGHIJKLMNOPQRSTUVWXYZ0123456789._" for ch in u.tag):
         # not an OFX tag at all (outside A-Z 0-9 . _): as a data element it has always been let through; as an
@@ -86,8 +95,25 @@ def gen_insertions(rng):
         with_ins = copy.deepcopy(tree)
         for _ in range(rng.randint(1, 3)):
             with_ins.insert(rng.randint(0, len(with_ins)), unknown_child(rng, C))
-        return [ET.tostring(tree).decode(), ET.tostring(with_ins).decode()]
+        return [enc_tree(tree), enc_tree(with_ins)]
     raise RuntimeError("no tree")
+
+
+def enc_tree(e):
+    """the harness ships trees as XML text; OFX tags that are not XML names (leading digit, '.', ...) travel under a prefix"""
+    t = copy.deepcopy(e)
+    for n in t.iter():
+        if not (n.tag[:1].isalpha() or n.tag[:1] == "_"):
+            n.tag = "X__" + n.tag
+    return ET.tostring(t).decode()
+
+
+def dec_tree(text):
+    t = ET.fromstring(text)
+    for n in t.iter():
+        if n.tag.startswith("X__"):
+            n.tag = n.tag[3:]
+    return t
 
 
 def conv(tree):
@@ -112,12 +138,12 @@ def through_the_parser(text):
 
 
 def call_insertions(it, fn, a):
-    base = conv(ET.fromstring(a[0]))
+    base = conv(dec_tree(a[0]))
     problems = []
-    routes = [("element tree", lambda: ET.fromstring(a[1])),
+    routes = [("element tree", lambda: dec_tree(a[1])),
               # (the library's own XML form: empty elements as <TAG></TAG>; the self-closing spelling <TAG/> is not OFX)
-              ("XML rendering through the parser", lambda: through_the_parser(ET.tostring(ET.fromstring(a[1]), encoding="unicode", method="html"))),
-              ("SGML rendering through the parser", lambda: through_the_parser(sgml_of(ET.fromstring(a[1]))))]
+              ("XML rendering through the parser", lambda: through_the_parser(ET.tostring(dec_tree(a[1]), encoding="unicode", method="html"))),
+              ("SGML rendering through the parser", lambda: through_the_parser(sgml_of(dec_tree(a[1]))))]
     last = None
     for name, mk in routes:
         try:
@@ -181,13 +207,13 @@ def gen_sequence(rng):
                 victim.set("emptytext", "1")
         root = ET.Element(C.__name__)
         root.extend(seq)
-        return [ET.tostring(root).decode()]
+        return [enc_tree(root)]
     raise RuntimeError("no tree")
 
 
 def call_sequence(it, fn, a):
     from contracts.spec import aggregate as SA
-    root = ET.fromstring(a[0])
+    root = dec_tree(a[0])
     for ch in root.iter():
         if ch.attrib.pop("emptytext", None):
             ch.text = ""
